@@ -90,6 +90,9 @@ pub struct Prog {
     /// C08 under concurrency: judge the history as linearizable with failed calls optional, and
     /// after the run disarm the fault, reopen and require every acknowledged write to be there
     pub judge_under_fault: bool,
+    /// what a failing *write* of the fault leaves in the file before it reports its error
+    /// (`vfs::Fault::partial`: 0 nothing, 1 half, 2 all but one byte, 3 one log header)
+    pub fault_partial: u8,
 }
 
 /// value size that marks a synchronous put in thread programs
@@ -421,6 +424,7 @@ fn prog_body(prog: &Prog, log: &Arc<Mutex<Vec<Event>>>, stale: &Arc<AtomicU64>) 
         fs.state().fail_by_suffix = Some((classes, suffix.to_string()));
         fs.state().fail_by_suffix_budget = prog.fault_budget;
         fs.state().fail_by_suffix_skip = prog.fault_skip;
+        fs.state().fail_by_suffix_partial = prog.fault_partial;
     }
     let mut handles = vec![];
     for (ti, ops) in prog.threads.iter().enumerate() {
